@@ -10,6 +10,8 @@
    the end the heap (two identical runs must not grow the allocator's in-use bytes). *)
 From Coq Require Import NArith List Lia.
 From Mtbl Require Import model.Bytes model.Ledger.
+(* source ties: the statements of the C functions the model follows (gen/Ties.v is regenerated from /repo on every run) *)
+From Mtbl Require props.Ties_C18.
 Local Open Scope N_scope.
 
 Lemma ledger_nil : ledger [] = led0.
